@@ -40,6 +40,8 @@ fire("alt-pc-after-split", ["C01", "C03"], "compile_alt", E("src/compile.rs", " 
 fire("alt-jmp-after-add", ["C01", "C03"], "compile_alt", E("src/compile.rs", "                let pc = self.b.pc();\n                jmps.push(pc);\n                self.b.add(Insn::Jmp(0));", "                self.b.add(Insn::Jmp(0));\n                let pc = self.b.pc();\n                jmps.push(pc);"))
 fire("alt-patch-before-first", ["C01", "C03"], "compile_alt", E("src/compile.rs", "            if last_pc != usize::MAX {\n                self.b.set_split_target(last_pc, pc, true);\n            }\n            last_pc = pc;", "            if last_pc != usize::MAX && has_next {\n                self.b.set_split_target(last_pc, pc, true);\n            }\n            last_pc = pc;"))
 silent("alt-patch-then-split", ["C01", "C03", "C06"], E("src/compile.rs", "            if has_next {\n                self.b.add(Insn::Split(pc + 1, usize::MAX));\n            }\n            if last_pc != usize::MAX {\n                self.b.set_split_target(last_pc, pc, true);\n            }", "            if last_pc != usize::MAX {\n                self.b.set_split_target(last_pc, pc, true);\n            }\n            if has_next {\n                self.b.add(Insn::Split(pc + 1, usize::MAX));\n            }"))
+fire("expand-check-zero-needs-unnamed", ["C12"], "EXPAND/check", E("src/expand.rs", "            if num == 0 {\n                Ok(())\n            } else if !regex.named_groups.is_empty() {", "            if num == 0 && regex.named_groups.is_empty() {\n                Ok(())\n            } else if !regex.named_groups.is_empty() {"))
+silent("expand-check-reordered-tests", ["C12", "C05"], E("src/expand.rs", "            if num == 0 {\n                Ok(())\n            } else if !regex.named_groups.is_empty() {\n                Err(Error::CompileError(CompileError::NamedBackrefOnly))\n            } else if num < regex.captures_len() {", "            if num != 0 && !regex.named_groups.is_empty() {\n                Err(Error::CompileError(CompileError::NamedBackrefOnly))\n            } else if num == 0 || num < regex.captures_len() {"))
 # ---------------- VM state
 fire("push-nsave-reset", ["C20", "C02"], "State::push", E("src/vm.rs", "            self.nsave = 0;\n            self.trace_stack(\"push\");", "            self.trace_stack(\"push\");"))
 fire("save-logs-new-value", ["C20", "C02"], "State::save", E("src/vm.rs", "        self.oldsave.push(Save {\n            slot,\n            value: self.saves[slot],\n        });", "        self.oldsave.push(Save {\n            slot,\n            value: val,\n        });"))
